@@ -16,13 +16,13 @@ tvars == <<vars, l>>
 
 Blank(k) ==
   /\ q' = {m \in Msgs : m <= k} /\ att' = [m \in Msgs |-> 0] /\ sif' = [m \in Msgs |-> FALSE]
-  /\ gone' = [m \in Msgs |-> m > k] /\ work' = {} /\ ctr' = 0 /\ dead' = {} /\ cl' = 0
+  /\ gone' = [m \in Msgs |-> m > k] /\ work' = {} /\ ctr' = 0 /\ dead' = {} /\ cl' = 0 /\ ghost' = {}
   /\ acc' = [m \in Msgs |-> {}] /\ dfail' = [m \in Msgs |-> 0] /\ reqs' = [m \in Msgs |-> 0]
   /\ fins' = [m \in Msgs |-> 0] /\ ifail' = 0 /\ unknown' = 0 /\ ended' = FALSE
 
 TraceInit ==
   /\ q = {} /\ att = [m \in Msgs |-> 0] /\ sif = [m \in Msgs |-> FALSE] /\ gone = [m \in Msgs |-> TRUE]
-  /\ work = {} /\ ctr = 0 /\ dead = {} /\ sched = [d \in Dests |-> <<>>] /\ tos = 0 /\ cl = 0
+  /\ work = {} /\ ctr = 0 /\ dead = {} /\ sched = [d \in Dests |-> <<>>] /\ tos = 0 /\ cl = 0 /\ ghost = {}
   /\ acc = [m \in Msgs |-> {}] /\ dfail = [m \in Msgs |-> 0] /\ reqs = [m \in Msgs |-> 0]
   /\ fins = [m \in Msgs |-> 0] /\ ifail = 0 /\ unknown = 0 /\ ended = FALSE
   /\ l = 1 /\ TLCSet(1, 1) /\ TLCSet(2, <<>>)
@@ -38,39 +38,47 @@ TReset   == /\ IsEvent("Reset") /\ Blank(E.n)
             /\ sched' = [d \in Dests |-> E.sched[d]]
 TDeliver == IsEvent("Deliver") /\ Deliver(E.m)
 \* sh: how the relay's code reads the answer ("R" for a 2xx other than 200 under --get)
-TAccept  == /\ IsEvent("Accept") /\ NextItem(E.d) = E.sh
-            /\ \E w \in work : w.m = E.m /\ w.d = E.d /\ Answer(w)
-TRefuse  == /\ IsEvent("Refuse") /\ NextItem(E.d) = "R"
-            /\ \E w \in work : w.m = E.m /\ w.d = E.d /\ Answer(w)
+Served(m, d) == \E w \in work : (m = 0 \/ w.m = m) /\ w.d = d /\ Answer(w)
+\* an answer to a request of a delivery the relay had already answered itself (its own timeout fired first); the
+\* harness tells these apart by counting deliveries and FIN/REQs of the message up to that point
+TGhost   == /\ IsEvent("Ghost")
+            /\ IF E.sh = "L" THEN NextItem(E.d) \in {"L", "D"} ELSE NextItem(E.d) = E.sh
+            /\ ghost' = ghost /\ GhostEffect(E.m, E.d)
+TAccept  == IsEvent("Accept") /\ NextItem(E.d) = E.sh /\ Served(E.m, E.d)
+TRefuse  == IsEvent("Refuse") /\ NextItem(E.d) = "R" /\ Served(E.m, E.d)
 TFailDown == /\ IsEvent("Fail") /\ E.k = "down"
              /\ \E w \in work, ch \in Choices : ch[1] = E.d /\ SendFails(w, ch)
-TFailLost == /\ IsEvent("Fail") /\ E.k # "down" /\ NextItem(E.d) \in {"L", "D"}
-             /\ \E w \in work : (E.m = 0 \/ w.m = E.m) /\ w.d = E.d /\ Answer(w)
+TFailLost == IsEvent("Fail") /\ E.k # "down" /\ NextItem(E.d) \in {"L", "D"} /\ Served(E.m, E.d)
 \* stub HTTP endpoint closed the connection instead of answering: the request fails, or net/http silently
 \* retries it on a fresh connection (the item is spent either way)
 TLost    == /\ IsEvent("Lost") /\ NextItem(E.d) \in {"L", "D"}
-            /\ \/ \E w \in work : (E.m = 0 \/ w.m = E.m) /\ w.d = E.d /\ Answer(w)
-               \/ Consume(E.d) /\ UNCHANGED <<q, att, sif, gone, work, ctr, dead, tos, cl, hvars>>
+            /\ \/ Served(E.m, E.d)
+               \/ Consume(E.d) /\ UNCHANGED <<q, att, sif, gone, work, ctr, dead, tos, cl, ghost, hvars>>
 \* stub HTTP endpoint closed a connection at accept: net/http may have dialled it speculatively
 TDown    == /\ IsEvent("Down") /\ NextItem(E.d) = "D"
             /\ \/ \E w \in work, ch \in Choices : ch[1] = E.d /\ SendFails(w, ch)
-               \/ Consume(E.d) /\ UNCHANGED <<q, att, sif, gone, work, ctr, dead, tos, cl, hvars>>
+               \/ Consume(E.d) /\ UNCHANGED <<q, att, sif, gone, work, ctr, dead, tos, cl, ghost, hvars>>
 TFin     == IsEvent("Fin") /\ \E w \in work : w.m = E.m /\ RespondFin(w)
 TReq     == IsEvent("Req") /\ \E w \in work : w.m = E.m /\ RespondReq(w)
 TEnd     == IsEvent("End") /\ End
 
 NeedsRequest == E.ev \in {"Accept", "Refuse", "Lost"} \/ (E.ev = "Fail" /\ E.k # "down")
-SilentSend == /\ Silent
-              /\ \/ /\ NeedsRequest
-                    /\ \E w \in work, ch \in Choices : ch[1] = E.d /\ (E.m = 0 \/ w.m = E.m) /\ SendTo(w, ch)
-                 \/ /\ E.ev = "Req" /\ ~\E w \in work : w.m = E.m /\ w.st \in {"s", "ok", "fail"}
-                    /\ \E w \in work, ch \in Choices : w.m = E.m /\ SendTo(w, ch)
+SilentSend == /\ Silent /\ NeedsRequest
+              /\ \E w \in work, ch \in Choices : ch[1] = E.d /\ (E.m = 0 \/ w.m = E.m) /\ SendTo(w, ch)
+\* a REQ for a delivery no destination has (yet) been seen to have: HandleMessage failed before or while sending
+\* (producer not connected, the relay's own timeout) = SendTo to an unknown destination followed by ConnLost
+SilentGiveUp == /\ Silent /\ E.ev = "Req" /\ ~\E w \in work : w.m = E.m /\ w.st \in {"s", "ok", "fail"}
+                /\ cl < MaxConnLost
+                /\ \E w \in work : /\ w.m = E.m /\ w.st = "h"
+                                    /\ work' = (work \ {w}) \cup {[w EXCEPT !.st = "fail"]}
+                /\ cl' = cl + 1 /\ ghost' = ghost
+                /\ UNCHANGED <<q, att, sif, gone, ctr, dead, sched, tos, hvars>>
 SilentConnLost == /\ Silent /\ E.ev = "Req" /\ ~\E w \in work : w.m = E.m /\ w.st = "fail"
                   /\ \E w \in work : w.m = E.m /\ ConnLost(w)
 SilentTimeout == Silent /\ \E m \in Msgs : SrcTimeout(m)
 
-TraceNext == \/ TReset \/ TDeliver \/ TAccept \/ TRefuse \/ TFailDown \/ TFailLost \/ TLost \/ TDown
-             \/ TFin \/ TReq \/ TEnd \/ SilentSend \/ SilentConnLost \/ SilentTimeout
+TraceNext == \/ TReset \/ TDeliver \/ TGhost \/ TAccept \/ TRefuse \/ TFailDown \/ TFailLost \/ TLost \/ TDown
+             \/ TFin \/ TReq \/ TEnd \/ SilentSend \/ SilentGiveUp \/ SilentConnLost \/ SilentTimeout
 TraceSpec == TraceInit /\ [][TraceNext]_tvars
 
 HW == IF l > TLCGet(1) THEN TLCSet(1, l) /\ TLCSet(2, <<work, sched, q, sif>>) ELSE TRUE
